@@ -286,7 +286,7 @@ func ruleK6(c *Ctx, id string) {
 // [BitmapInodeStart, +NInodeBitmap), and are stored in the matching fields.
 func ruleK5(c *Ctx, id string) {
 	P, R := c.P, c.R
-	R.Rule(id, "allocators cover their whole bitmap region: MkFsState builds Balloc from readBitmap(BitmapBlockStart(), NBlockBitmap) and Ialloc from readBitmap(BitmapInodeStart(), NInodeBitmap)", 2)
+	R.Rule(id, "allocators cover their whole bitmap region: MkFsState builds Balloc from readBitmap(BitmapBlockStart(), NBlockBitmap) and Ialloc from readBitmap(BitmapInodeStart(), NInodeBitmap), each given whole to alloc.MkAlloc", 4)
 	mk := c.fn(id, "fstxn.MkFsState")
 	rb := c.fn(id, "fstxn.readBitmap")
 	if mk == nil || rb == nil {
@@ -311,6 +311,18 @@ func ruleK5(c *Ctx, id string) {
 				start = sc.Call.StaticCallee().Name()
 			}
 			_, length, _, _ = loadedField(cl.Call.Args[2])
+		}
+		// the allocator is given all of what was read: no re-slicing between readBitmap and MkAlloc
+		for v := range bwdAll(w.Val) {
+			cl, isC := v.(*ssa.Call)
+			if !isC || cl.Call.StaticCallee() == nil || cl.Call.StaticCallee().Name() != "MkAlloc" || len(cl.Call.Args) != 1 {
+				continue
+			}
+			cut := ""
+			if sl := cutOnTheWay(cl.Call.Args[0], map[ssa.Value]bool{}); sl != nil {
+				cut = P.Pos(sl.Pos())
+			}
+			R.Check(cut == "", id, "fstxn.MkFsState|"+w.Field+" covers all of the bitmap read", P.Pos(cl.Pos()), "alloc.MkAlloc is given the whole slice readBitmap returned", "no re-slicing on the way", "the bitmap is cut ("+cut+") before the allocator is built from it: numbers beyond the cut are free on disk but can never be allocated (a bound in bytes rounds a bit count down)")
 		}
 		R.Check(start == wv[0] && length == wv[1], id, "fstxn.MkFsState|"+w.Field+" from its own bitmap", P.Pos(w.Instr.Pos()), fmt.Sprintf("%s is built from readBitmap(%s(), %s)", w.Field, wv[0], wv[1]), "start and length agree", fmt.Sprintf("%s is built from readBitmap(%s(), %s): the allocator knows only part of (or another) bitmap: blocks beyond it can never be allocated, or foreign bits are handed out", w.Field, start, length))
 	}
@@ -742,9 +754,46 @@ func ruleK4(c *Ctx, id string) {
 // region's first block (C01.R3's WriteBits clauses, reported here because a
 // wrong block index shows only on disks with more than one bitmap block).
 func ruleK7(c *Ctx, id string) {
-	c.R.Rule(id, "run-time bitmap writes address bit n of the bitmap region: WriteBits writes one bit at addr.MkBitAddr(start, n) with value 1 << (n % 8) (complemented for frees)", 4)
+	c.R.Rule(id, "run-time bitmap writes address bit n of the bitmap region: WriteBits writes one bit at addr.MkBitAddr(start, n) with value 1 << (n % 8) (complemented for frees); PreCommit writes the allocated bits before the freed bits", 6)
 	if c.V.WriteBits == nil || c.V.OverWrite == nil {
 		return
 	}
 	ruleWriteBits(c, id)
+	rulePreCommitOrder(c, id)
+}
+
+// cutOnTheWay: following v back through conversions, phis and local cells (the
+// same slice value under other names), the first re-slicing with a bound.
+func cutOnTheWay(v ssa.Value, seen map[ssa.Value]bool) *ssa.Slice {
+	v = stripConv(v)
+	if v == nil || seen[v] {
+		return nil
+	}
+	seen[v] = true
+	switch x := v.(type) {
+	case *ssa.Slice:
+		if x.Low != nil || x.High != nil {
+			return x
+		}
+		return cutOnTheWay(x.X, seen)
+	case *ssa.Phi:
+		for _, e := range x.Edges {
+			if sl := cutOnTheWay(e, seen); sl != nil {
+				return sl
+			}
+		}
+	case *ssa.UnOp:
+		if x.Op == token.MUL {
+			if al, ok := x.X.(*ssa.Alloc); ok {
+				for _, r := range refs(al) {
+					if st, ok := r.(*ssa.Store); ok && st.Addr == ssa.Value(al) {
+						if sl := cutOnTheWay(st.Val, seen); sl != nil {
+							return sl
+						}
+					}
+				}
+			}
+		}
+	}
+	return nil
 }
